@@ -37,7 +37,7 @@ def recOf (q : Req) (sg : Sig) : Rec := { hrs := q.hrs, sb := some q.p, sig := s
 /-- what is known at each program point of the call in flight -/
 def PcInv (s : St) : Prop :=
   match s.pc with
-  | .idle => s.mem = s.disk ∧ s.shadow = s.disk
+  | .idle => s.poisoned = false → s.mem = s.disk ∧ s.shadow = s.disk
   | .check _ => s.mem = s.disk ∧ s.shadow = s.disk
   | .sign q => s.mem = s.disk ∧ s.shadow = s.disk ∧ HRS.lt s.disk.hrs q.hrs
   | .setMem q sg => s.mem = s.disk ∧ s.shadow = s.disk ∧ HRS.lt s.disk.hrs q.hrs ∧ sg.msg = q.p.bytes
@@ -48,7 +48,7 @@ def PcInv (s : St) : Prop :=
   | .rename q sg => s.mem = recOf q sg ∧ s.shadow = recOf q sg ∧ HRS.lt s.disk.hrs q.hrs ∧ s.temp = some (recOf q sg)
   | .unlink1 q sg => s.mem = recOf q sg ∧ s.shadow = recOf q sg ∧ s.disk = recOf q sg
   | .unlink2 q sg => s.mem = recOf q sg ∧ s.shadow = recOf q sg ∧ s.disk = recOf q sg
-  | .release q o => s.mem = s.disk ∧ s.shadow = s.disk ∧
+  | .release q o => (s.poisoned = false → s.mem = s.disk ∧ s.shadow = s.disk) ∧
       match o with
       | .released g _ post => post = g.msg ∧ HRS.le s.disk.hrs q.hrs ∧ (q.save = true → s.disk.hrs = q.hrs ∧ s.disk.sig = some g)
       | _ => True
@@ -159,13 +159,13 @@ theorem pcInv_decide (s : St) (q : Req) (hm : s.mem = s.disk) (hsh : s.shadow = 
             split
             · rename_i hb
               simp only [PcInv]
-              refine ⟨hm, hsh, ?_, ?_, ?_⟩
+              refine ⟨fun _ => ⟨hm, hsh⟩, ?_, ?_, ?_⟩
               · rw [hmsg, hb]
               · rw [← hm, hhrs]; exact HRS.le_refl _
               · intro _; rw [← hm]; exact ⟨hhrs, hsg⟩
             · split
               · simp only [PcInv]
-                refine ⟨hm, hsh, hmsg.symm, ?_, ?_⟩
+                refine ⟨fun _ => ⟨hm, hsh⟩, hmsg.symm, ?_, ?_⟩
                 · rw [← hm, hhrs]; exact HRS.le_refl _
                 · intro _; rw [← hm]; exact ⟨hhrs, hsg⟩
               · simp [PcInv, hm, hsh]
@@ -235,7 +235,7 @@ theorem inv_restart (s : St) (hd : DiskInv s.disk s.out s.persisted) : Inv (rest
   ⟨hd, hd.recDisk, by simp [PcInv, restart]⟩
 
 /-- **the invariant is preserved by every event** (request, micro-step, crash, crash inside an ATOMIC rename) -/
-theorem inv_step (s : St) (e : Ev) (hi : Inv s) (hat : e.atomicAt s) : Inv (step s e) := by
+theorem inv_step (s : St) (e : Ev) (hi : Inv s) (hat : e.admissibleAt s) : Inv (step s e) := by
   obtain ⟨hd, hrm, hpc⟩ := hi
   cases e with
   | req q =>
@@ -244,7 +244,8 @@ theorem inv_step (s : St) (e : Ev) (hi : Inv s) (hat : e.atomicAt s) : Inv (step
     · rename_i hidle
       refine ⟨hd, hrm, ?_⟩
       simp only [PcInv, hidle] at hpc
-      simp only [PcInv]; exact hpc
+      simp only [Ev.admissibleAt] at hat
+      simp only [PcInv]; exact hpc hat
     · exact ⟨hd, hrm, hpc⟩
   | crash => exact inv_restart s hd
   | crashTorn r =>
@@ -256,7 +257,7 @@ theorem inv_step (s : St) (e : Ev) (hi : Inv s) (hat : e.atomicAt s) : Inv (step
       split
       · exact inv_restart s hd
       · rename_i hne
-        simp only [Ev.atomicAt] at hat
+        simp only [Ev.admissibleAt] at hat
         rcases hat with h | h
         · exact absurd h hne
         · rw [htemp] at h
@@ -265,6 +266,12 @@ theorem inv_step (s : St) (e : Ev) (hi : Inv s) (hat : e.atomicAt s) : Inv (step
           have hok : RecOK (recOf q sg) := hmem ▸ hrm
           exact inv_restart _ (hd.land (recOf q sg) hok hlt)
     · exact inv_restart s hd
+  | writeFails n =>
+    -- the failed save releases nothing and touches neither the key file nor the logs; the call ends with a panic
+    simp only [step]
+    split
+    · exact ⟨hd, hrm, by simp [PcInv]⟩
+    · exact ⟨hd, hrm, hpc⟩
   | tick =>
     simp only [step, tick]
     split
@@ -281,7 +288,7 @@ theorem inv_step (s : St) (e : Ev) (hi : Inv s) (hat : e.atomicAt s) : Inv (step
       · rename_i hns
         refine ⟨hd, hrm, ?_⟩
         simp only [PcInv]
-        refine ⟨hpc.1, hpc.2.1, trivial, HRS.le_of_lt hpc.2.2, ?_⟩
+        refine ⟨fun _ => ⟨hpc.1, hpc.2.1⟩, trivial, HRS.le_of_lt hpc.2.2, ?_⟩
         intro hsv; exact absurd hsv hns
     · -- setMem
       rename_i q sg hq
@@ -325,37 +332,38 @@ theorem inv_step (s : St) (e : Ev) (hi : Inv s) (hat : e.atomicAt s) : Inv (step
       refine ⟨hd, hrm, ?_⟩
       simp only [PcInv]
       have hmsg : sg.msg = q.p.bytes := hrm.msg q.p sg (by rw [hmem]; rfl) (by rw [hmem]; rfl)
-      refine ⟨by rw [hmem, hdm], by rw [hsh, hdm], hmsg.symm, ?_, fun _ => ?_⟩
+      refine ⟨fun _ => ⟨by rw [hmem, hdm], by rw [hsh, hdm]⟩, hmsg.symm, ?_, fun _ => ?_⟩
       · rw [hdm]; exact HRS.le_refl _
       · rw [hdm]; exact ⟨rfl, rfl⟩
     · -- release: the outcome is handed to the caller
       rename_i q o hq
       simp only [PcInv, hq] at hpc
-      obtain ⟨hmd, hsd, ho⟩ := hpc
+      obtain ⟨hms, ho⟩ := hpc
       cases o with
       | refused code =>
-        exact ⟨hd.nonrelease q _ (by intro g ts post h; cases h), hrm, by simp only [PcInv]; exact ⟨hmd, hsd⟩⟩
+        exact ⟨hd.nonrelease q _ (by intro g ts post h; cases h), hrm, by simp only [PcInv]; exact hms⟩
       | panicked =>
-        exact ⟨hd.nonrelease q _ (by intro g ts post h; cases h), hrm, by simp only [PcInv]; exact ⟨hmd, hsd⟩⟩
+        exact ⟨hd.nonrelease q _ (by intro g ts post h; cases h), hrm, by simp only [PcInv]; exact hms⟩
       | released g ts post =>
         simp only at ho
         obtain ⟨hpost, hle, hsave⟩ := ho
-        exact ⟨hd.release q g ts post hpost hle hsave, hrm, by simp only [PcInv]; exact ⟨hmd, hsd⟩⟩
+        exact ⟨hd.release q g ts post hpost hle hsave, hrm, by simp only [PcInv]; exact hms⟩
 
-theorem inv_run (s : St) (evs : List Ev) (hi : Inv s) (hat : AtomicRun s evs) : Inv (run s evs) := by
+theorem inv_run (s : St) (evs : List Ev) (hi : Inv s) (hat : Admissible s evs) : Inv (run s evs) := by
   induction evs generalizing s with
   | nil => exact hi
   | cons e rest ih => exact ih (step s e) (inv_step s e hi hat.1) hat.2
 
 /-- every state reachable from a fresh key file by any requests, micro-steps, crashes and crashes inside atomic
 renames satisfies the invariant -/
-theorem inv_reachable (evs : List Ev) (hat : AtomicRun St.init evs) : Inv (run St.init evs) := inv_run _ _ inv_init hat
+theorem inv_reachable (evs : List Ev) (hat : Admissible St.init evs) : Inv (run St.init evs) := inv_run _ _ inv_init hat
 
 /-! ## the property clauses, over all request / crash sequences
 
 Every theorem below quantifies over ALL event lists `evs` — requests (votes and proposals, recording or not), micro-steps,
-crashes between any two micro-steps, and crashes INSIDE the rename — under the single file-system hypothesis
-`AtomicRun St.init evs` (a crash inside a rename leaves the old or the new content). -/
+crashes between any two micro-steps, crashes INSIDE the rename, and write errors of the temp file — under the hypothesis
+`Admissible St.init evs` (a crash inside a rename leaves the old or the new content; no signing call is entered on an
+object whose save panicked). -/
 
 theorem histOK_split {l1 l2 : List (Req × Outcome)} {e2 : Req × Outcome} (h : HistOK (l1 ++ e2 :: l2)) : HistOK (e2 :: l2) := by
   induction l1 with
@@ -364,7 +372,7 @@ theorem histOK_split {l1 l2 : List (Req × Outcome)} {e2 : Req × Outcome} (h : 
 
 /-- **one_payload_per_hrs.** In every history, two releases of recording calls at the same (height, round, step)
 carry the same signature, i.e. the key has released exactly one payload there. -/
-theorem one_payload_per_hrs (evs : List Ev) (hat : AtomicRun St.init evs) (l1 l2 : List (Req × Outcome)) (q1 q2 : Req) (g1 g2 : Sig) (ts1 ts2 : String) (p1 p2 : Bytes)
+theorem one_payload_per_hrs (evs : List Ev) (hat : Admissible St.init evs) (l1 l2 : List (Req × Outcome)) (q1 q2 : Req) (g1 g2 : Sig) (ts1 ts2 : String) (p1 p2 : Bytes)
     (hout : (run St.init evs).out = l1 ++ (q2, .released g2 ts2 p2) :: l2)
     (h1 : (q1, Outcome.released g1 ts1 p1) ∈ l2) (hs1 : q1.save = true) (hs2 : q2.save = true) (hsame : q1.hrs = q2.hrs) :
     g1 = g2 ∧ g1.msg = g2.msg := by
@@ -375,7 +383,7 @@ theorem one_payload_per_hrs (evs : List Ev) (hat : AtomicRun St.init evs) (l1 l2
   exact ⟨h, by rw [h]⟩
 
 /-- **no_regression.** A release (recording or not) never happens at an HRS below an earlier recording release. -/
-theorem no_regression (evs : List Ev) (hat : AtomicRun St.init evs) (l1 l2 : List (Req × Outcome)) (q1 q2 : Req) (g1 g2 : Sig) (ts1 ts2 : String) (p1 p2 : Bytes)
+theorem no_regression (evs : List Ev) (hat : Admissible St.init evs) (l1 l2 : List (Req × Outcome)) (q1 q2 : Req) (g1 g2 : Sig) (ts1 ts2 : String) (p1 p2 : Bytes)
     (hout : (run St.init evs).out = l1 ++ (q2, .released g2 ts2 p2) :: l2)
     (h1 : (q1, Outcome.released g1 ts1 p1) ∈ l2) (hs1 : q1.save = true) :
     HRS.le q1.hrs q2.hrs := by
@@ -385,7 +393,7 @@ theorem no_regression (evs : List Ev) (hat : AtomicRun St.init evs) (l1 l2 : Lis
 
 /-- the same as a refusal statement: whatever a later call for a strictly lower HRS hands to its caller, it is
 not a signature -/
-theorem lower_request_refused (evs : List Ev) (hat : AtomicRun St.init evs) (l1 l2 : List (Req × Outcome)) (q1 q2 : Req) (o2 : Outcome) (g1 : Sig) (ts1 : String) (p1 : Bytes)
+theorem lower_request_refused (evs : List Ev) (hat : Admissible St.init evs) (l1 l2 : List (Req × Outcome)) (q1 q2 : Req) (o2 : Outcome) (g1 : Sig) (ts1 : String) (p1 : Bytes)
     (hout : (run St.init evs).out = l1 ++ (q2, o2) :: l2)
     (h1 : (q1, Outcome.released g1 ts1 p1) ∈ l2) (hs1 : q1.save = true) (hlow : HRS.lt q2.hrs q1.hrs) :
     (∃ code, o2 = .refused code) ∨ o2 = .panicked := by
@@ -397,7 +405,7 @@ theorem lower_request_refused (evs : List Ev) (hat : AtomicRun St.init evs) (l1 
 
 /-- **replay_returns_original.** A repeated request at an HRS already signed either is refused or returns the
 ORIGINAL signature inside a vote whose signed content (sign-bytes, hence timestamp) is the original's. -/
-theorem replay_returns_original (evs : List Ev) (hat : AtomicRun St.init evs) (l1 l2 : List (Req × Outcome)) (q1 q2 : Req) (o2 : Outcome) (g1 : Sig) (ts1 : String) (p1 : Bytes)
+theorem replay_returns_original (evs : List Ev) (hat : Admissible St.init evs) (l1 l2 : List (Req × Outcome)) (q1 q2 : Req) (o2 : Outcome) (g1 : Sig) (ts1 : String) (p1 : Bytes)
     (hout : (run St.init evs).out = l1 ++ (q2, o2) :: l2)
     (h1 : (q1, Outcome.released g1 ts1 p1) ∈ l2) (hs1 : q1.save = true) (hs2 : q2.save = true) (hsame : q1.hrs = q2.hrs) :
     (∃ ts2, o2 = .released g1 ts2 p1) ∨ (∃ code, o2 = .refused code) ∨ o2 = .panicked := by
@@ -411,7 +419,7 @@ theorem replay_returns_original (evs : List Ev) (hat : AtomicRun St.init evs) (l
     exact Or.inl ⟨ts2, by rw [this.1, this.2]⟩
 
 /-- every signature handed out signs exactly the content of the vote it is handed out in -/
-theorem released_signature_signs_returned_vote (evs : List Ev) (hat : AtomicRun St.init evs) (q : Req) (g : Sig) (ts : String) (post : Bytes)
+theorem released_signature_signs_returned_vote (evs : List Ev) (hat : Admissible St.init evs) (q : Req) (g : Sig) (ts : String) (post : Bytes)
     (h : (q, Outcome.released g ts post) ∈ (run St.init evs).out) : post = g.msg :=
   ((inv_reachable evs hat).d.covers _ h g ts post rfl).1
 
@@ -427,7 +435,7 @@ theorem tick_out (s : St) : (tick s).out = s.out ∨ ∃ q o, s.pc = .release q 
 /-- **persist_before_release.** At the moment an event hands a signature of a recording call to the caller,
 the key file already records that HRS with exactly that signature and its sign-bytes (and the event itself does
 not touch the file). -/
-theorem persist_before_release (evs : List Ev) (hat : AtomicRun St.init evs) (e : Ev) (q : Req) (g : Sig) (ts : String) (post : Bytes)
+theorem persist_before_release (evs : List Ev) (hat : Admissible St.init evs) (e : Ev) (q : Req) (g : Sig) (ts : String) (post : Bytes)
     (hnew : (step (run St.init evs) e).out = (q, .released g ts post) :: (run St.init evs).out) (hs : q.save = true) :
     (run St.init evs).disk.hrs = q.hrs ∧ (run St.init evs).disk.sig = some g ∧
       (∃ p, (run St.init evs).disk.sb = some p ∧ p.bytes = g.msg) ∧ (step (run St.init evs) e).disk = (run St.init evs).disk := by
@@ -442,6 +450,7 @@ theorem persist_before_release (evs : List Ev) (hat : AtomicRun St.init evs) (e 
     split at hlen
     · split at hlen <;> simp [restart] at hlen
     · simp [restart] at hlen
+  | writeFails n => simp only [step] at hlen; split at hlen <;> simp at hlen
   | tick =>
     simp only [step] at hnew hlen ⊢
     rcases tick_out s with h | ⟨q', o, hq, hout, hdisk⟩
@@ -451,28 +460,47 @@ theorem persist_before_release (evs : List Ev) (hat : AtomicRun St.init evs) (e 
       obtain ⟨rfl, rfl⟩ := hnew
       have hpc := hi.pc
       simp only [PcInv, hq] at hpc
-      obtain ⟨_, _, _, _, hsave⟩ := hpc
+      obtain ⟨_, _, _, hsave⟩ := hpc
       have ⟨h1, h2⟩ := hsave hs
       exact ⟨h1, h2, hi.d.recDisk.bytes_of_sig g h2, hdisk⟩
+
+
+/-! ### write errors -/
+
+/-- **failed_save_releases_nothing.** If the write of the temp file reports an error (after any number `n` of
+bytes), the call hands a panic to its caller — no signature —, and neither the key file nor the log of persisted
+records nor the set of signatures handed out changes; the object is left poisoned (it holds the record the key
+file does not). -/
+theorem failed_save_releases_nothing (s : St) (n : Nat) (q : Req) (sg : Sig) (hpc : s.pc = .writeTemp q sg) :
+    (run s [.writeFails n, .tick]).out = (q, .panicked) :: s.out ∧ (run s [.writeFails n, .tick]).disk = s.disk ∧
+    (run s [.writeFails n, .tick]).persisted = s.persisted ∧ (run s [.writeFails n, .tick]).signed = s.signed ∧
+    (run s [.writeFails n, .tick]).pc = .idle ∧ (run s [.writeFails n, .tick]).poisoned = true := by
+  simp [run, step, tick, hpc]
+
+/-- a write error can only occur where a write is in flight -/
+theorem writeFails_elsewhere_noop (s : St) (n : Nat) (h : ∀ q sg, s.pc ≠ .writeTemp q sg) : step s (.writeFails n) = s := by
+  cases hq : s.pc with
+  | writeTemp q sg => exact absurd hq (h q sg)
+  | _ => simp [step, hq]
 
 /-! ### persisted records: released only after persisted, and the converse bound -/
 
 /-- **released_after_persisted.** Every signature a recording call ever handed out is the signature of a record
 that had become the content of the key file before (the model half; the source-order half is
 `signVote_saves_before_release`, `signProposal_saves_before_release`, `saveSigned_copies_record_before_save`). -/
-theorem released_after_persisted (evs : List Ev) (hat : AtomicRun St.init evs) (q : Req) (g : Sig) (ts : String) (post : Bytes)
+theorem released_after_persisted (evs : List Ev) (hat : Admissible St.init evs) (q : Req) (g : Sig) (ts : String) (post : Bytes)
     (h : (q, Outcome.released g ts post) ∈ (run St.init evs).out) (hs : q.save = true) :
     ∃ r ∈ (run St.init evs).persisted, r.hrs = q.hrs ∧ r.sig = some g :=
   (inv_reachable evs hat).d.relPers _ h g ts post rfl hs
 
 /-- **persisted_strictly_increasing.** The records that ever became the content of the key file are strictly
 increasing in (height, round, step): the key file never held two different records for one HRS, released or not. -/
-theorem persisted_strictly_increasing (evs : List Ev) (hat : AtomicRun St.init evs) :
+theorem persisted_strictly_increasing (evs : List Ev) (hat : Admissible St.init evs) :
     (run St.init evs).persisted.Pairwise (fun newer older => HRS.lt older.hrs newer.hrs) :=
   (inv_reachable evs hat).d.persSorted
 
 /-- the newest persisted record is what the key file holds now; all others are strictly below it -/
-theorem persisted_head_is_disk (evs : List Ev) (hat : AtomicRun St.init evs) (r : Rec) (rest : List Rec)
+theorem persisted_head_is_disk (evs : List Ev) (hat : Admissible St.init evs) (r : Rec) (rest : List Rec)
     (h : (run St.init evs).persisted = r :: rest) :
     r = (run St.init evs).disk ∧ ∀ r' ∈ rest, HRS.lt r'.hrs (run St.init evs).disk.hrs := by
   have hd := (inv_reachable evs hat).d
@@ -487,7 +515,7 @@ current content of the key file is dead: a recording release at its HRS that is 
 been overwritten stays unreleased — so at any time the only persisted-but-unreleased record that a caller can
 still obtain is the current one. Stated on the reachable state: two persisted records at the same HRS are equal,
 and a recording release at the HRS of a persisted record carries that record's signature. -/
-theorem persisted_unique_per_hrs (evs : List Ev) (hat : AtomicRun St.init evs) (r1 r2 : Rec)
+theorem persisted_unique_per_hrs (evs : List Ev) (hat : Admissible St.init evs) (r1 r2 : Rec)
     (h1 : r1 ∈ (run St.init evs).persisted) (h2 : r2 ∈ (run St.init evs).persisted) (hsame : r1.hrs = r2.hrs) : r1 = r2 := by
   have hs := persisted_strictly_increasing evs hat
   generalize (run St.init evs).persisted = l at *
@@ -501,7 +529,7 @@ theorem persisted_unique_per_hrs (evs : List Ev) (hat : AtomicRun St.init evs) (
     · have := hs.1 r1 h1'; rw [hsame] at this; exact absurd this (HRS.lt_irrefl _)
     · exact ih h1' h2' hs.2
 
-theorem release_matches_persisted (evs : List Ev) (hat : AtomicRun St.init evs) (q : Req) (g : Sig) (ts : String) (post : Bytes) (r : Rec)
+theorem release_matches_persisted (evs : List Ev) (hat : Admissible St.init evs) (q : Req) (g : Sig) (ts : String) (post : Bytes) (r : Rec)
     (h : (q, Outcome.released g ts post) ∈ (run St.init evs).out) (hs : q.save = true)
     (hr : r ∈ (run St.init evs).persisted) (hsame : r.hrs = q.hrs) : r.sig = some g := by
   obtain ⟨r', hr', h1, h2⟩ := released_after_persisted evs hat q g ts post h hs
@@ -511,18 +539,18 @@ theorem release_matches_persisted (evs : List Ev) (hat : AtomicRun St.init evs) 
 
 /-! ### the future of an overwritten record -/
 
-theorem atomicRun_append (s : St) (a b : List Ev) : AtomicRun s (a ++ b) ↔ AtomicRun s a ∧ AtomicRun (run s a) b := by
+theorem admissible_append (s : St) (a b : List Ev) : Admissible s (a ++ b) ↔ Admissible s a ∧ Admissible (run s a) b := by
   induction a generalizing s with
-  | nil => simp [AtomicRun, run]
+  | nil => simp [Admissible, run]
   | cons e rest ih =>
-    simp only [List.cons_append, AtomicRun, run, List.foldl_cons]
+    simp only [List.cons_append, Admissible, run, List.foldl_cons]
     rw [ih, and_assoc]; rfl
 
 theorem run_append (s : St) (a b : List Ev) : run s (a ++ b) = run (run s a) b := by
   simp [run, List.foldl_append]
 
 /-- one event: the key file's HRS never decreases, and a recording release it emits is at the key file's HRS -/
-theorem step_mono (s : St) (e : Ev) (hi : Inv s) (hat : e.atomicAt s) :
+theorem step_mono (s : St) (e : Ev) (hi : Inv s) (hat : e.admissibleAt s) :
     HRS.le s.disk.hrs (step s e).disk.hrs ∧
     ((step s e).out = s.out ∨ ∃ q o, (step s e).out = (q, o) :: s.out ∧
       ∀ g ts post, o = .released g ts post → q.save = true → HRS.le s.disk.hrs q.hrs) := by
@@ -538,12 +566,13 @@ theorem step_mono (s : St) (e : Ev) (hi : Inv s) (hat : e.atomicAt s) :
       split
       · exact ⟨HRS.le_refl _, Or.inl rfl⟩
       · rename_i hne
-        simp only [Ev.atomicAt] at hat
+        simp only [Ev.admissibleAt] at hat
         rcases hat with h | h
         · exact absurd h hne
         · rw [hpc.2.2.2] at h; simp only [Option.getD_some] at h; subst h
           exact ⟨HRS.le_of_lt hpc.2.2.1, Or.inl rfl⟩
     · exact ⟨HRS.le_refl _, Or.inl rfl⟩
+  | writeFails n => simp only [step]; split <;> exact ⟨HRS.le_refl _, Or.inl rfl⟩
   | tick =>
     simp only [step]
     rcases tick_out s with h | ⟨q, o, hq, hout, hdisk⟩
@@ -559,11 +588,11 @@ theorem step_mono (s : St) (e : Ev) (hi : Inv s) (hat : e.atomicAt s) :
       intro g ts post ho hsv
       simp only [PcInv, hq] at hpc
       subst ho
-      exact hpc.2.2.2.1
+      exact hpc.2.2.1
 
 /-- along any continuation: the key file's HRS never decreases, the log only grows, and every recording release of
 the continuation is at or above the HRS the key file had at its start -/
-theorem run_mono (s : St) (evs : List Ev) (hi : Inv s) (hat : AtomicRun s evs) :
+theorem run_mono (s : St) (evs : List Ev) (hi : Inv s) (hat : Admissible s evs) :
     HRS.le s.disk.hrs (run s evs).disk.hrs ∧ ∃ l, (run s evs).out = l ++ s.out ∧
       ∀ q g ts post, (q, Outcome.released g ts post) ∈ l → q.save = true → HRS.le s.disk.hrs q.hrs := by
   induction evs generalizing s with
@@ -588,11 +617,11 @@ theorem run_mono (s : St) (evs : List Ev) (hi : Inv s) (hat : AtomicRun s evs) :
 continuation (requests, crashes at any point, atomic renames) ever hands out a signature of a recording call at
 its HRS again. With `persisted_head_is_disk`: at any time the only persisted-but-unreleased record a caller can
 still obtain is the one currently in the key file — at most one. -/
-theorem overwritten_record_never_released (evs evs' : List Ev) (hat : AtomicRun St.init (evs ++ evs')) (r : Rec)
+theorem overwritten_record_never_released (evs evs' : List Ev) (hat : Admissible St.init (evs ++ evs')) (r : Rec)
     (hr : r ∈ (run St.init evs).persisted) (hne : r ≠ (run St.init evs).disk) :
     ∃ l, (run St.init (evs ++ evs')).out = l ++ (run St.init evs).out ∧
       ∀ q g ts post, (q, Outcome.released g ts post) ∈ l → q.save = true → q.hrs ≠ r.hrs := by
-  have ⟨ha, hb⟩ := (atomicRun_append St.init evs evs').1 hat
+  have ⟨ha, hb⟩ := (admissible_append St.init evs evs').1 hat
   have hi := inv_reachable evs ha
   have ⟨_, l, hl, h⟩ := run_mono (run St.init evs) evs' hi hb
   refine ⟨l, by rw [run_append]; exact hl, ?_⟩
@@ -633,13 +662,13 @@ any history): the key computes NO signature (`signed` unchanged), the key file a
 untouched, and if the call hands out a signature it is the one stored in the key file, inside a vote whose
 sign-bytes are the stored sign-bytes; the vote keeps its own timestamp only if its sign-bytes were already
 identical to the stored ones, otherwise it gets the stored timestamp and the request's core equals the stored core. -/
-theorem same_hrs_call_returns_stored (s : St) (q : Req) (hi : Inv s) (hidle : s.pc = .idle) (hsame : s.mem.hrs = q.hrs) (hstep : q.hrs.s ≠ -1) :
+theorem same_hrs_call_returns_stored (s : St) (q : Req) (hi : Inv s) (hidle : s.pc = .idle) (hnp : s.poisoned = false) (hsame : s.mem.hrs = q.hrs) (hstep : q.hrs.s ≠ -1) :
     ∃ o, (call s q).out = (q, o) :: s.out ∧ (call s q).signed = s.signed ∧ (call s q).disk = s.disk ∧
       (call s q).persisted = s.persisted ∧
       ∀ g ts post, o = .released g ts post → s.disk.sig = some g ∧ ∃ lp, s.disk.sb = some lp ∧ post = lp.bytes ∧
         ((q.p.bytes = lp.bytes ∧ ts = q.p.ts) ∨ (q.p.bytes ≠ lp.bytes ∧ q.p.core = lp.core ∧ ts = lp.ts)) := by
   obtain ⟨o, hd, ho⟩ := decideCall_same s.mem q hi.recMem hsame hstep
-  have hmd : s.mem = s.disk := by have := hi.pc; simp only [PcInv, hidle] at this; exact this.1
+  have hmd : s.mem = s.disk := by have := hi.pc; simp only [PcInv, hidle] at this; exact (this hnp).1
   refine ⟨o, ?_, ?_, ?_, ?_, ?_⟩
   · simp [call, step, hidle, finish, tick, hd]
   · simp [call, step, hidle, finish, tick, hd]
@@ -649,19 +678,20 @@ theorem same_hrs_call_returns_stored (s : St) (q : Req) (hi : Inv s) (hidle : s.
 
 /-! ## the full statement, the interface-wide statement and its counterexample -/
 
-/-- **C04 for the recording calls (SignVote, SignProposal)**: over all histories with crashes at any point
-(incl. inside an atomic rename), after a recording release at HRS `x`: (a) nothing is signed at a lower HRS, (b) at `x`
+/-- **C04 for the recording calls (SignVote, SignProposal)**: over all admissible histories — requests, crashes at
+any point (incl. inside an atomic rename), write errors of the temp file after any number of bytes
+(`Ev.writeFails`), restarts —, after a recording release at HRS `x`: (a) nothing is signed at a lower HRS, (b) at `x`
 itself only the original signature over the original content is ever handed out again, (c) whenever a recording call
 hands out a signature the key file already records it, and (d) the key file never holds two records for one HRS. -/
 def C04_statement : Prop :=
-  (∀ (evs : List Ev), AtomicRun St.init evs → ∀ (l1 l2 : List (Req × Outcome)) (q1 q2 : Req) (o2 : Outcome) (g1 : Sig) (ts1 : String) (p1 : Bytes),
+  (∀ (evs : List Ev), Admissible St.init evs → ∀ (l1 l2 : List (Req × Outcome)) (q1 q2 : Req) (o2 : Outcome) (g1 : Sig) (ts1 : String) (p1 : Bytes),
     (run St.init evs).out = l1 ++ (q2, o2) :: l2 → (q1, Outcome.released g1 ts1 p1) ∈ l2 → q1.save = true →
       (HRS.lt q2.hrs q1.hrs → ∀ g2 ts2 p2, o2 ≠ .released g2 ts2 p2) ∧
       (q2.save = true → q1.hrs = q2.hrs → ∀ g2 ts2 p2, o2 = .released g2 ts2 p2 → g2 = g1 ∧ p2 = p1))
-  ∧ (∀ (evs : List Ev), AtomicRun St.init evs → ∀ (e : Ev) (q : Req) (g : Sig) (ts : String) (post : Bytes),
+  ∧ (∀ (evs : List Ev), Admissible St.init evs → ∀ (e : Ev) (q : Req) (g : Sig) (ts : String) (post : Bytes),
       (step (run St.init evs) e).out = (q, .released g ts post) :: (run St.init evs).out → q.save = true →
       (run St.init evs).disk.hrs = q.hrs ∧ (run St.init evs).disk.sig = some g)
-  ∧ (∀ (evs : List Ev), AtomicRun St.init evs →
+  ∧ (∀ (evs : List Ev), Admissible St.init evs →
       (run St.init evs).persisted.Pairwise (fun newer older => HRS.lt older.hrs newer.hrs))
 
 theorem C04_holds : C04_statement := by
@@ -682,7 +712,7 @@ theorem C04_holds : C04_statement := by
 /-- the same demand on EVERY method of the signing interface, i.e. including `SignVoteWithoutSave`
 (`save = false`): two releases at the same HRS carry the same signature -/
 def C04_statement_full_interface : Prop :=
-  ∀ (evs : List Ev), AtomicRun St.init evs → ∀ (l1 l2 : List (Req × Outcome)) (q1 q2 : Req) (g1 g2 : Sig) (ts1 ts2 : String) (p1 p2 : Bytes),
+  ∀ (evs : List Ev), Admissible St.init evs → ∀ (l1 l2 : List (Req × Outcome)) (q1 q2 : Req) (g1 g2 : Sig) (ts1 ts2 : String) (p1 p2 : Bytes),
     (run St.init evs).out = l1 ++ (q2, .released g2 ts2 p2) :: l2 → (q1, Outcome.released g1 ts1 p1) ∈ l2 →
     q1.hrs = q2.hrs → g1 = g2
 
@@ -697,14 +727,14 @@ def exB (save : Bool) : Req := { hrs := ⟨5, 0, 2⟩, p := { bytes := [2], core
 def exC : Req := { hrs := ⟨6, 0, 2⟩, p := { bytes := [3], core := [30], ts := "t1" }, save := true }
 def ticks (n : Nat) : List Ev := List.replicate n Ev.tick
 
-instance (s : St) (e : Ev) : Decidable (e.atomicAt s) := by
-  cases e <;> simp only [Ev.atomicAt] <;> exact inferInstance
+instance (s : St) (e : Ev) : Decidable (e.admissibleAt s) := by
+  cases e <;> simp only [Ev.admissibleAt] <;> exact inferInstance
 
-instance decAtomicRun : (s : St) → (evs : List Ev) → Decidable (AtomicRun s evs)
+instance decAdmissible : (s : St) → (evs : List Ev) → Decidable (Admissible s evs)
   | _, [] => isTrue trivial
   | s, e :: rest =>
-    have := decAtomicRun (step s e) rest
-    by simp only [AtomicRun]; exact inferInstance
+    have := decAdmissible (step s e) rest
+    by simp only [Admissible]; exact inferInstance
 
 /-- **false of the current code**: `SignVoteWithoutSave` signs block A and then block B at the same HRS -/
 theorem C04_full_interface_counterexample : ¬ C04_statement_full_interface := by
@@ -716,7 +746,7 @@ theorem C04_full_interface_counterexample : ¬ C04_statement_full_interface := b
 /-- the strongest true statement: restricted to the recording calls it holds (`one_payload_per_hrs`), and
 unrecorded calls in between do not disturb it; `Props.C04.signVoteWithoutSave_has_no_caller` keeps the
 restriction honest for the node. -/
-theorem C04_full_interface_partial (evs : List Ev) (hat : AtomicRun St.init evs) (l1 l2 : List (Req × Outcome)) (q1 q2 : Req) (g1 g2 : Sig) (ts1 ts2 : String) (p1 p2 : Bytes)
+theorem C04_full_interface_partial (evs : List Ev) (hat : Admissible St.init evs) (l1 l2 : List (Req × Outcome)) (q1 q2 : Req) (g1 g2 : Sig) (ts1 ts2 : String) (p1 p2 : Bytes)
     (hout : (run St.init evs).out = l1 ++ (q2, .released g2 ts2 p2) :: l2) (h1 : (q1, Outcome.released g1 ts1 p1) ∈ l2)
     (hs1 : q1.save = true) (hs2 : q2.save = true) (hsame : q1.hrs = q2.hrs) : g1 = g2 :=
   (one_payload_per_hrs evs hat l1 l2 q1 q2 g1 g2 ts1 ts2 p1 p2 hout h1 hs1 hs2 hsame).1
@@ -729,8 +759,45 @@ theorem rename_atomicity_needed : ¬ C04_statement_without_atomic_rename := by
     [] [(exA true, .released ⟨[1]⟩ "t1" [1])] (exA true) (exB true) ⟨[1]⟩ ⟨[2]⟩ "t1" "t1" [1] [2] (by decide) (by simp) rfl rfl rfl
   exact absurd this (by decide)
 
+
+/-- the recording-call statement for callers that RECOVER from the panic of a failed save and go on using the same
+object (atomic renames still assumed) -/
+def C04_statement_with_retry_after_save_panic : Prop :=
+  ∀ (evs : List Ev), AtomicRun St.init evs → ∀ (l1 l2 : List (Req × Outcome)) (q1 q2 : Req) (g1 g2 : Sig) (ts1 ts2 : String) (p1 p2 : Bytes),
+    (run St.init evs).out = l1 ++ (q2, .released g2 ts2 p2) :: l2 → (q1, Outcome.released g1 ts1 p1) ∈ l2 →
+    q1.save = true → q2.save = true → q1.hrs = q2.hrs → g1 = g2
+
+instance (s : St) (e : Ev) : Decidable (e.atomicAt s) := by
+  cases e <;> simp only [Ev.atomicAt] <;> exact inferInstance
+
+instance decAtomicRun : (s : St) → (evs : List Ev) → Decidable (AtomicRun s evs)
+  | _, [] => isTrue trivial
+  | s, e :: rest =>
+    have := decAtomicRun (step s e) rest
+    by simp only [AtomicRun]; exact inferInstance
+
+/-- **"a panic of a failed save ends the process" is needed**: `saveSigned` assigns the record to the object BEFORE
+`save()`, so after the panic of a failed save the object holds a record the key file does not.  A caller that
+recovered and asked again would get that signature through the same-HRS branch (nothing is written on that
+branch); after a restart the key file knows nothing and a different block is signed at the same HRS.
+No in-tree caller does this (the consensus receive routine does not continue after a panic). -/
+theorem save_panic_retry_breaks_C04 : ¬ C04_statement_with_retry_after_save_panic := by
+  intro h
+  have := h ([.req (exA true)] ++ ticks 5 ++ [.writeFails 0, .tick, .req (exA true)] ++ ticks 2 ++ [.crash, .req (exB true)] ++ ticks 11)
+    (by decide) [] [(exA true, .released ⟨[1]⟩ "t1" [1]), (exA true, .panicked)] (exA true) (exB true) ⟨[1]⟩ ⟨[2]⟩ "t1" "t1" [1] [2]
+    (by decide) (by simp) rfl rfl rfl
+  exact absurd this (by decide)
+
+/-- a failed save in an admissible history: A is signed and released at 5/0/2; the save of C at 6/0/2 fails after 3
+bytes: C's caller gets a panic, the key file still holds A's record, and after the restart the conflicting B at
+5/0/2 is refused while C can be signed again -/
+example : let evs := [.req (exA true)] ++ ticks 11 ++ [.req exC] ++ ticks 5 ++ [.writeFails 3, .tick, .crash, .req (exB true)] ++ ticks 2 ++ [.req exC] ++ ticks 11
+    Admissible St.init evs ∧
+    (run St.init evs).out = [(exC, .released ⟨[3]⟩ "t1" [3]), (exB true, .refused conflictCode), (exC, .panicked), (exA true, .released ⟨[1]⟩ "t1" [1])] ∧
+    (run St.init evs).persisted = [recOf exC ⟨[3]⟩, recOf (exA true) ⟨[1]⟩] := by decide
+
 /-- with the hypothesis it holds (this is `one_payload_per_hrs`) -/
-theorem C04_with_atomic_rename (evs : List Ev) (hat : AtomicRun St.init evs) (l1 l2 : List (Req × Outcome)) (q1 q2 : Req) (g1 g2 : Sig) (ts1 ts2 : String) (p1 p2 : Bytes)
+theorem C04_with_atomic_rename (evs : List Ev) (hat : Admissible St.init evs) (l1 l2 : List (Req × Outcome)) (q1 q2 : Req) (g1 g2 : Sig) (ts1 ts2 : String) (p1 p2 : Bytes)
     (hout : (run St.init evs).out = l1 ++ (q2, .released g2 ts2 p2) :: l2) (h1 : (q1, Outcome.released g1 ts1 p1) ∈ l2)
     (hs1 : q1.save = true) (hs2 : q2.save = true) (hsame : q1.hrs = q2.hrs) : g1 = g2 :=
   (one_payload_per_hrs evs hat l1 l2 q1 q2 g1 g2 ts1 ts2 p1 p2 hout h1 hs1 hs2 hsame).1
@@ -748,12 +815,12 @@ example : (run St.init ([.req (exA true)] ++ ticks 8 ++ [.crash, .req (exB true)
     = [(exA true, .released ⟨[1]⟩ "t1" [1]), (exB true, .refused conflictCode)] := by decide
 
 /-- a crash INSIDE an atomic rename that left the new content behaves like the second case, one that left the old
-content like the first; both runs satisfy `AtomicRun` -/
-example : AtomicRun St.init ([.req (exA true)] ++ ticks 7 ++ [.crashTorn (recOf (exA true) ⟨[1]⟩), .req (exB true)] ++ ticks 2) ∧
+content like the first; both runs satisfy `Admissible` -/
+example : Admissible St.init ([.req (exA true)] ++ ticks 7 ++ [.crashTorn (recOf (exA true) ⟨[1]⟩), .req (exB true)] ++ ticks 2) ∧
     (run St.init ([.req (exA true)] ++ ticks 7 ++ [.crashTorn (recOf (exA true) ⟨[1]⟩), .req (exB true)] ++ ticks 2)).out
       = [(exB true, .refused conflictCode)] := by decide
 
-example : AtomicRun St.init ([.req (exA true)] ++ ticks 7 ++ [.crashTorn Rec.zero, .req (exB true)] ++ ticks 11) ∧
+example : Admissible St.init ([.req (exA true)] ++ ticks 7 ++ [.crashTorn Rec.zero, .req (exB true)] ++ ticks 11) ∧
     (run St.init ([.req (exA true)] ++ ticks 7 ++ [.crashTorn Rec.zero, .req (exB true)] ++ ticks 11)).out
       = [(exB true, .released ⟨[2]⟩ "t1" [2])] := by decide
 
@@ -781,7 +848,7 @@ theorem fresh_request_served (s : St) (q : Req) (hidle : s.pc = .idle) (hlt : HR
 
 /-- the composite steps the driver executes (`finish`, `finishKill`) are event lists without torn renames:
 everything the correspondence run exercises is an instance of the histories the theorems quantify over -/
-theorem atomicRun_ticks (s : St) (k : Nat) : AtomicRun s (ticks k) := by
+theorem admissible_ticks (s : St) (k : Nat) : Admissible s (ticks k) := by
   induction k generalizing s with
   | zero => trivial
   | succ k ih => exact ⟨trivial, ih _⟩
@@ -797,7 +864,7 @@ theorem finish_is_run (n : Nat) (s : St) : ∃ k, finish n s = run s (ticks k) :
       exact ⟨k + 1, by rw [hk]; rfl⟩
 
 theorem finishKill_is_run (name : String) (n fuel seen : Nat) (s : St) :
-    ∃ evs, (finishKill name n fuel seen s).1 = run s evs ∧ AtomicRun s evs := by
+    ∃ evs, (finishKill name n fuel seen s).1 = run s evs ∧ Admissible s evs := by
   induction fuel generalizing s seen with
   | zero => exact ⟨[], rfl, trivial⟩
   | succ fuel ih =>
